@@ -63,10 +63,26 @@ def main():
             viol = [ln for ln in lines if ln.startswith("VIOLATION")]
             clauses = [ln.strip() for ln in lines if ln.startswith("  clause=")]
             und = [ln for ln in lines if ln.startswith("UNDECIDED")]
-            layers = sorted({"bounded" if "/bounded/" in c or "key=" + cid + "/bounded" in c else "proof-obligation" for c in clauses})
+            import glob
+            kinds = {}
+            for rp in glob.glob(os.path.join(ev, cid + "-*.json")):
+                try:
+                    kd = json.load(open(rp)).get("kind")
+                except Exception:
+                    continue
+                kinds[kd] = kinds.get(kd, 0) + 1
+            names = {"bounded": "bounded layer (failing input replayed on the real code)", "ground-model": "proof obligation refuted, solver model replayed on the real code",
+                     "refuted": "proof obligation refuted (no concrete input)"}
+            layers = sorted(names.get(k_, str(k_)) for k_ in kinds)
+            cov = {}
+            try:
+                cov = json.load(open(os.path.join(ev, cid + ".json")))["coverage"]
+            except Exception:
+                pass
             meta["checks"][cid] = {"tier": tier, "exit": rc, "violations": len(viol), "undecided_obligations": len(und), "layers": layers,
                                    "with_failing_input": sum(1 for v in viol if not v.rstrip().endswith("no-failing-input-found")),
-                                   "first_clauses": [c[:300] for c in clauses[:3]], "summary": [ln for ln in lines if " tier=" in ln][-1:]}
+                                   "first_clauses": [c[:300] for c in clauses[:3]], "summary": [ln for ln in lines if " tier=" in ln][-1:],
+                                   "violations_by_kind": kinds, "obligations": cov.get("obligations"), "discharged": cov.get("discharged")}
         if note != "-":
             meta["description"] = open(note).read().strip()
         d = os.path.join(VERIF, "seeded", name)
